@@ -37,6 +37,7 @@ ODD_INCLUDES = ["http://[", "http://a b/", "#frag", "x.conf#frag", "file:",
                 "http://sim.test:80/x", "http://sim.test:0/x",
                 "http://sim.test:99999/x", "data:text/plain,k%201", "%41",
                 "data:text/plain;base64,////", "data:,%ff%fe", "data:;base64,gICA",
+                "/proc/self/mem", "file:///proc/self/mem",
                 "file://remotehost/x", "file://localhost/sim/x", ".", "..",
                 "/", "./", "http://sim.test/a\tb", "http://sim.test/x\\y"]
 
